@@ -39,7 +39,7 @@ class Sub:
     """
 
     def __init__(self, name, oracle, strategy=None, enumerate=None, budget=None, examples=None,
-                 rule='', exhaustive=False, shards=None):
+                 rule='', exhaustive=False, shards=None, fuzz=None):
         self.name = name
         self.oracle = oracle
         self.strategy = strategy
@@ -49,6 +49,7 @@ class Sub:
         self.rule = rule
         self.exhaustive = exhaustive
         self.shards = shards
+        self.fuzz = fuzz or {}      # tier -> libFuzzer runs per campaign process (atheris), 0 = none
         self.kind = 'enum' if enumerate is not None else 'hyp'
 
 
@@ -300,6 +301,7 @@ def run_check(pid, tier, seed, workers):
     for task, st in zip(tasks, outs):
         total.merge(st)
         per_sub[task[1]].merge(st)
+    fuzz_note = run_fuzz_campaigns(mod, tier, seed, workers, total, per_sub)
     if total.errors:
         for e in total.errors[:5]:
             print('HARNESS-ERROR:', e)
@@ -330,14 +332,61 @@ def run_check(pid, tier, seed, workers):
         print('  label=%s cases=%d :: %s' % (lab, cnt, m))
 
     wall = time.time() - t0
-    write_evidence(mod, tier, seed, total, per_sub, new_viol, known_seen, wall)
+    write_evidence(mod, tier, seed, total, per_sub, new_viol, known_seen, wall, fuzz_note)
     print('%s %s seed=%d: evaluations=%d distinct_nontrivial=%d violations=%d known=%d wall=%.1fs'
           % (pid, tier, seed, total.evaluations, len(total.nontrivial), len(new_viol),
              len(known_seen), wall))
     return 1 if new_viol else 0
 
 
-def write_evidence(mod, tier, seed, total, per_sub, new_viol, known_seen, wall):
+def run_fuzz_campaigns(mod, tier, seed, workers, total, per_sub):
+    """Coverage-guided campaigns (atheris) for the sub-checks that register one for this tier.  Each
+    campaign is a fresh process (instrumentation must wrap the package import); half start from an
+    empty corpus, half from a corpus directory they share.  Bounded by run count, never by time."""
+    import pickle
+    import shutil
+    import subprocess
+    jobs = [(s, s.fuzz.get(tier, 0)) for s in mod.SUBS if s.kind == 'hyp' and s.fuzz.get(tier, 0)]
+    if not jobs:
+        return None
+    work = os.path.join(VERIF, '.work', 'fuzz-%d' % os.getpid())
+    os.makedirs(work, exist_ok=True)
+    note = {'engine': 'atheris/libFuzzer over hypothesis.fuzz_one_input', 'campaigns': 0, 'executions': 0, 'valid_cases': 0}
+    env = dict(os.environ)
+    env['PYTHONPATH'] = VERIF + os.pathsep + os.path.join(VERIF, '.deps') + os.pathsep + env.get('PYTHONPATH', '')
+    procs = []
+    per = max(1, workers // max(1, len(jobs)))
+    try:
+        for sub, runs in jobs:
+            for i in range(per):
+                out = os.path.join(work, '%s-%d.pkl' % (sub.name, i))
+                cmd = [sys.executable, '-m', 'kv.fuzz', mod.ID, sub.name, '--runs', str(runs), '--seed',
+                       str(seed_for(seed, mod.ID, sub.name, 'fuzz', i) % (2 ** 31)), '--tier', tier, '--out', out]
+                if i % 2:
+                    cmd += ['--corpus', os.path.join(work, 'corpus-%s-%d' % (sub.name, i))]
+                procs.append((sub, out, subprocess.Popen(cmd, cwd=VERIF, env=env, stdout=subprocess.DEVNULL,
+                                                         stderr=subprocess.DEVNULL)))
+        for sub, out, pr in procs:
+            try:
+                pr.wait(timeout=WATCHDOG_S[tier])
+            except subprocess.TimeoutExpired:
+                pr.kill()
+            if os.path.exists(out):
+                with open(out, 'rb') as fh:
+                    st = pickle.load(fh)
+                note['campaigns'] += 1
+                note['executions'] += int(st.tags.pop('atheris:executions', 0))
+                note['valid_cases'] += st.evaluations
+                total.merge(st)
+                per_sub[sub.name + '+atheris'].merge(st)
+        if note['campaigns'] == 0:
+            note['unavailable'] = 'no campaign produced output (atheris not importable?)'
+    finally:
+        shutil.rmtree(work, ignore_errors=True)
+    return note
+
+
+def write_evidence(mod, tier, seed, total, per_sub, new_viol, known_seen, wall, fuzz_note=None):
     os.makedirs(os.path.join(VERIF, 'evidence'), exist_ok=True)
     samples = []
     for s in total.samples:
@@ -360,6 +409,8 @@ def write_evidence(mod, tier, seed, total, per_sub, new_viol, known_seen, wall):
         'known_findings_seen': [k[0] for k in known_seen],
         'workers': N_WORKERS,
     }
+    if fuzz_note:
+        cov['coverage_guided'] = fuzz_note
     if any(s.exhaustive for s in mod.SUBS) and all(s.exhaustive for s in mod.SUBS):
         cov['exhaustive'] = True
     ev = {
